@@ -72,6 +72,15 @@ show('regular-broadcast-tooffsets-untrimmed-content', 'IndexedOption(RegularArra
 # ---- C09
 show('is-none-axis-beyond-depth', 'ak.is_none([1,2,3], axis=1); ak.is_none(["ab"], axis=1)',
      lambda: (ak.is_none(A([1, 2, 3]), axis=1), ak.is_none(A(['ab']), axis=1)), 'ValueError (axis exceeds the depth), as ak.num does')
+show('unmasked-rpad-and-clip-axis0-no-clip', 'ak.pad_none(UnmaskedArray([1,2,3]), 2, axis=0, clip=True)   (UnmaskedArray::rpad_and_clip calls rpad_axis0(target, false))',
+     lambda: ak.pad_none(A(L.UnmaskedArray(i64(1, 2, 3))), 2, axis=0, clip=True), '[1, 2]')
+show('negaxis-record-not-resolved', "ak.fill_none([{x:[1,None]}], 0, axis=-1)   (negative axis stays negative at a record with list fields)",
+     lambda: ak.fill_none(A([{'x': [1, None]}]), 0, axis=-1), '[{x:[1,0]}]')
+show('argminmax-nonlocal-positions (option leaves)', 'ak.argmax([[6,0],[2,None,8,7],[9,None]], axis=0)',
+     lambda: ak.argmax(A([[6, 0], [2, None, 8, 7], [9, None]]), axis=0), '[2, 0, 1, 1]')
+show('broadcast-all-same-offsets-regular-zero-length', 'ak.zip([RegularArray(size 2, length 0, content 1 long), ListArray(length 0)], depth_limit=3)',
+     lambda: ak.zip([A(L.RegularArray(i64(2), 2)), A(L.ListArray64(ix(), ix(), i64()))], depth_limit=3),
+     'ValueError (depth_limit is deeper than the arrays), as for non-empty arrays')
 # ---- C10
 show('with-field-sole-field-drops-structure', "ak.with_field([[{x:1},{x:2}],[{x:3}]], [[10,20],[30]], 'x')",
      lambda: ak.with_field(A([[{'x': 1}, {'x': 2}], [{'x': 3}]]), A([[10, 20], [30]]), 'x'), '[[{x:10},{x:20}],[{x:30}]]')
